@@ -232,8 +232,8 @@ def session_wiring(c):
     c.ob('weekly-without-a-weekday-rejected/type-ValueError', r == 'ValueError')
     r, s = _try(lambda: BacktestTradingSession(start, end, uni, alpha, rebalance='daily', long_only=False, data_handler=dh, gross_leverage=2.0))
     for bad in (0.0, -2.0):
-        r, _ = _try(lambda: BacktestTradingSession(start, end, uni, alpha, rebalance='daily', long_only=False, data_handler=dh, gross_leverage=bad))
-        c.ob('session-with-leverage-%r-rejected/type-ValueError' % (bad,), r == 'ValueError', props=['C11', 'C08'])
+        rb, _ = _try(lambda: BacktestTradingSession(start, end, uni, alpha, rebalance='daily', long_only=False, data_handler=dh, gross_leverage=bad))
+        c.ob('session-with-leverage-%r-rejected/type-ValueError' % (bad,), rb == 'ValueError', props=['C11', 'C08'])
     c.ob('long-short-session-uses-the-leveraged-sizer', AND(r == 'ok', type(s.qts.portfolio_construction_model.order_sizer) is LS,
                                                            s.qts.portfolio_construction_model.order_sizer.gross_leverage == 2.0) if r == 'ok' else False)
 
